@@ -364,7 +364,60 @@ Definition check_rem (c : rem_case) : list nat :=
   | _ => []
   end.
 
+(* ---------------------------------------------------------------------------------------------------- *)
+(* add_iov, one call of a history: at NON-ZERO, pairwise distinct eta values                              *)
+(*   P_after(env) = P_before(env with every requested eta := eta + the IOV eta of the row's occasion),   *)
+(*   every other symbol unchanged; no existing symbol gets another assignment; remove_iov restores.      *)
+(* ---------------------------------------------------------------------------------------------------- *)
+Record iov_case := mkIov {
+  vc_before : list stmt;                (* the model before THIS add_iov call (earlier calls included) *)
+  vc_after : list stmt;
+  vc_removed : option (list stmt);      (* remove_iov(after, the etas this call declared) *)
+  vc_occ : id;
+  vc_etas : list (id * list (Q * id));  (* requested eta, [(occasion level, new IOV eta)] *)
+  vc_syms : list id;
+  vc_envs : list (list (id * Q))
+}.
+
+Definition shift_env (c : iov_case) (m : list (id * Q)) : list (id * Q) :=
+  fold_left (fun acc (p : id * list (Q * id)) =>
+     let '(eta, levels) := p in
+     match env_of m eta, env_of m (vc_occ c) with
+     | Some e, Some o =>
+         match find (fun lv : Q * id => Qeq_bool (fst lv) o) levels with
+         | Some (_, ie) => match env_of m ie with Some d => set_env acc eta (Qred (e + d)) | None => acc end
+         | None => acc
+         end
+     | _, _ => acc
+     end) (vc_etas c) m.
+
+Definition count_assign (l : list stmt) (s : id) : nat := length (filter (is_assign_of s) l).
+Definition assigned_syms (l : list stmt) : list id :=
+  flat_map (fun st => match st with Assign s _ => [s] | Ode _ _ => [] end) l.
+(* symbols already assigned keep their number of assignments; a new symbol is assigned once, or twice
+   when the first assignment is the initialisation "= 0" *)
+Definition declarations_fresh (before after : list stmt) : bool :=
+  forallb (fun s => Nat.eqb (count_assign after s) (count_assign before s)) (assigned_syms before) &&
+  forallb (fun s => memp s (assigned_syms before) ||
+                    match filter (is_assign_of s) after with
+                    | [_] => true
+                    | [Assign _ (Num q); _] => Qeq_bool q 0
+                    | _ => false
+                    end) (assigned_syms after).
+
+Definition check_iov (c : iov_case) : list nat :=
+  let per := map (fun s =>
+      summarize 2 (map (fun m => cmp_oq (run (shift_env c m) (vc_before c) s) (run m (vc_after c) s)) (vc_envs c)))
+      (vc_syms c) in
+  tag3 (if existsb (Nat.eqb 1) per then 1 else if existsb (Nat.eqb 2) per then 2 else 0) 37 ++
+  tag (declarations_fresh (vc_before c) (vc_after c)) 38 ++
+  match vc_removed c with
+  | Some r => tag3 (progs_agree 2 (vc_envs c) (vc_syms c) (vc_before c) r) 39
+  | None => []
+  end.
+
 Inductive case :=
+| CIov (c : iov_case)
 | CRem (c : rem_case)
 | CSame (c : same_case)
 | CCov (c : cov_case) | CIiv (c : iiv_case) | CErr (c : err_case) | CRuv (c : ruv_case)
@@ -372,6 +425,7 @@ Inductive case :=
 
 Definition verdict (T : templates) (c : case) : list nat :=
   match c with
+  | CIov c => check_iov c
   | CRem c => check_rem c
   | CSame c => check_same c
   | CCov c => check_cov T c
